@@ -1203,3 +1203,181 @@ def gen_C10(rng, tier):
             c.quit()
         out.append(c.build())
     return out
+
+
+# ------------------------------------------------------------------------------------------------
+def c19_conversations(rng, tier):
+    """scripted conversations (archetypes) for fault enumeration"""
+    convs = []
+
+    def mk(name, fn, mode="lockstep"):
+        c = Conv("C19-" + name, mode=mode)
+        fn(c)
+        convs.append(c)
+
+    mk("ok", lambda c: c.query("Q", [op_completed(1, 2)]).ping().quit())
+    mk("rs_finish", lambda c: c.query("Q", rows_program(2)).ping().quit())
+    mk("rs_qmark", lambda c: c.query("Q", [op_start([col("a", T_LONG)]), op_write_row([v_int("i32", 1)]), op_write_row([v_int("i32", 2)]), op_finish()]).quit())
+    mk("rs_drop", lambda c: c.query("Q", [op_start([col("a", T_LONG)]), op_write_row([v_int("i32", 1)]), op_drop()]).ping().quit())
+    mk("rs_implicit_drop", lambda c: c.query("Q", [op_start([col("a", T_LONG)]), op_write_col(v_int("i32", 1))]).ping().quit())
+    mk("q_drop", lambda c: c.query("Q", [op_complete_one(1, 1)]).ping().quit())
+    mk("multi", lambda c: c.query("Q", [op_complete_one(1, 1), op_start([col("a", T_LONG)]), op_write_row([v_int("i32", 1)]), op_finish_one(), op_start([]), op_end_row(), op_finish()]).quit())
+    mk("prep_exec", lambda c: c.prepare("P", prep_ok(1, [col("p", T_LONG)], [col("c0", T_LONG)])).execute(1, [p_int(T_LONG, 3)], rows_program(1, True)).cmd(com_close(1)).quit())
+    mk("longdata", lambda c: c.prepare("P", prep_ok(1, [col("p", T_BLOB)], [])).cmd(com_long_data(1, 0, b"abc")).execute(1, [p_long()], [op_completed(0, 0)]).quit())
+    mk("pipelined", lambda c: c.query("A", [op_completed(1, 1)]).query("B", rows_program(1)).ping().quit(), mode="pipelined")
+    mk("shim_err_query", lambda c: c.query("Q", [op_return_err(91)]).ping().quit())
+    mk("shim_err_after_rows", lambda c: c.query("Q", [op_start([col("a", T_LONG)]), op_write_row([v_int("i32", 1)]), op_return_err(92)]).ping())
+    mk("init", lambda c: c.init_db("db", [op_init_ok()]).query("USE x", [op_init_err("ER_BAD_DB_ERROR")]).quit())
+    mk("init_shim_err", lambda c: c.init_db("db", [op_return_err(93)]).ping())
+    mk("fieldlist", lambda c: c.cmd(com_field_list()).query("select @@max_allowed_packet").quit())
+    mk("eof_no_quit", lambda c: c.query("Q", [op_completed(0, 0)]).ping())
+    if tier != "quick":
+        mk("err_reply", lambda c: c.query("Q", [op_error("ER_NO", b"x")]).prepare("P", prep_err("ER_PARSE_ERROR")).quit())
+        mk("big_rows", lambda c: c.query("Q", rows_program(30)).quit())
+        mk("exec_err", lambda c: c.prepare("P", prep_ok(1, [], [])).execute(1, [], [op_return_err(94)]).ping())
+        mk("default_init", lambda c: c.cmd(com_init_db("db")).cmd(com_query("USE y")).quit())
+        convs[-1].shim = "default_init"
+        mk("pipelined2", lambda c: c.ping().ping().query("B", rows_program(2)).cmd(com_close(9)).ping().quit(), mode="pipelined")
+    rej = Conv("C19-reject", mode="lockstep", auth="reject")
+    rej.ping()
+    convs.append(rej)
+    return convs
+
+
+def gen_C19(rng, tier, probe=None):
+    out = []
+    convs = c19_conversations(rng, tier)
+    base = [c.build() for c in convs]
+    counts = probe(base)   # id -> dict(rd, wr, fl, ops)
+    for c, sc in zip(convs, base):
+        out.append(sc)
+        n = counts[sc["id"]]
+        nops = n["ops"]
+        kinds = ["oneoff", "persistent"]
+        errs = ["BrokenPipe", "ConnectionReset", "TimedOut", "Other"]
+        for k in range(nops):
+            for kind in kinds:
+                s2 = json_copy(sc)
+                s2["id"] = "%s-%s-%d" % (sc["id"], kind[0], k)
+                s2["transport"]["fault"] = {"on": "any", "at": k, "kind": kind, "err": errs[(k + len(kind)) % len(errs)]}
+                s2["meta"] = {"conv": sc["id"], "fault": kind, "at": k}
+                out.append(s2)
+        # short writes combined with a write fault
+        for k in range(0, n["wr"], 2):
+            s2 = json_copy(sc)
+            s2["id"] = "%s-sw-%d" % (sc["id"], k)
+            s2["transport"]["short_writes"] = [3, 1, 7]
+            s2["transport"]["fault"] = {"on": "write", "at": k * 2 + 1, "kind": "oneoff", "err": "BrokenPipe"}
+            s2["meta"] = {"conv": sc["id"], "fault": "write-short", "at": k}
+            out.append(s2)
+        # end of stream after every byte offset of the client stream
+        wire = []
+        for m in sc["client"]["msgs"]:
+            wire += m["b"]
+        step = 1 if tier != "quick" or len(wire) < 90 else 2
+        for k in range(0, len(wire), step):
+            s2 = json_copy(sc)
+            s2["id"] = "%s-eof-%d" % (sc["id"], k)
+            s2["client"]["mode"] = "pipelined"
+            s2["client"]["msgs"] = [{"b": wire[:k], "reply": True}]
+            s2["transport"]["chunks"] = [rng.choice([1, 3, 0, 50]) for _ in range(6)]
+            s2["meta"] = {"conv": sc["id"], "fault": "eof", "at": k}
+            out.append(s2)
+    return out
+
+
+def json_copy(x):
+    import json as _j
+    return _j.loads(_j.dumps(x))
+
+
+# ------------------------------------------------------------------------------------------------
+C20_ALPHABET = [0x00, 0x01, 0x02, 0x03, 0x04, 0x0e, 0x16, 0x17, 0x18, 0x19, 0xff]
+
+
+def raw_conv(sid, raw, hs=None, hs_seq=1, prepares=None, programs=None, chunks=None, meta=None):
+    c = Conv(sid, mode="pipelined", hs=hs, hs_seq=hs_seq, meta=meta)
+    if raw:
+        c.raw(raw, True)
+    c.prepares = prepares or []
+    c.programs = programs or []
+    if chunks is not None:
+        c.chunks, c.then = chunks
+    return c.build()
+
+
+def gen_C20(rng, tier):
+    import itertools
+    out = []
+    A = C20_ALPHABET
+    # (1) all short strings over the reduced alphabet, as a raw stream behind a valid handshake
+    maxlen = 3 if tier == "quick" else 4
+    n = 0
+    for L in range(1, maxlen + 1):
+        for t in itertools.product(A, repeat=L):
+            out.append(raw_conv("C20-a%d-%05d" % (L, n), list(t)))
+            n += 1
+    extra = 2500 if tier == "quick" else 40000
+    for i in range(extra):
+        L = rng.choice([4, 5, 5, 6, 7, 8]) if tier == "quick" else rng.choice([5, 5, 6, 7, 8, 10])
+        out.append(raw_conv("C20-r%05d" % i, [rng.choice(A) for _ in range(L)]))
+    # (2) every command byte, alone and with short bodies, properly framed
+    for cb in range(256):
+        for bi, body in enumerate(([], [0], [1, 0, 0, 0], [1, 0, 0, 0, 0, 1, 0, 0, 0], [rng.getrandbits(8) for _ in range(rng.randint(1, 12))])):
+            sc = raw_conv("C20-c%03d-%d" % (cb, bi), frame([cb] + body, 0) + frame(com_ping(), 0),
+                          prepares=[prep_ok(1, [col("p", T_LONG)], [])], programs=[[op_completed(0, 0)]] * 3)
+            out.append(sc)
+    # (3) grammar-aware mutations of a valid prepared-statement conversation
+    params = [p_int(T_LONG, 7), p_bytes(T_VAR_STRING, b"hello"), p_null(T_TINY), p_date(T_DATETIME, 2020, 2, 29, 1, 2, 3, 4), p_time(1, 2, 3, 4, 5), p_f64(f64_bits(1.5))]
+    pcols = [col("p%d" % i, p['ty']) for i, p in enumerate(params)]
+    ex = com_execute(1, params, True)
+    prep = [prep_ok(1, pcols, [])]
+
+    def mut_conv(sid, payload, first=None, seq0=0):
+        wire = frame(com_prepare("S"), 0)
+        if first is not None:
+            wire += frame(first, 0)
+        wire += frame(payload, seq0) + frame(com_ping(), 0)
+        return raw_conv(sid, wire, prepares=prep, programs=[[op_completed(0, 0)]] * 4)
+
+    for cut in range(len(ex) + 1):                      # truncation at every length
+        out.append(mut_conv("C20-m-cut%03d" % cut, ex[:cut]))
+        out.append(mut_conv("C20-m-cut2-%03d" % cut, com_execute(1, params, False)[:cut], first=ex))   # reuse path
+    for pos in range(len(ex)):                           # every byte set to 0, ff, +1
+        for val in sorted({0, 0xff, (ex[pos] + 1) % 256}):
+            m = list(ex)
+            m[pos] = val
+            out.append(mut_conv("C20-m-b%03d-%d" % (pos, val), m))
+    tpos = 1 + 4 + 1 + 4 + 1 + 1   # first type byte
+    for code in range(256):                              # every type code in the type table
+        m = list(ex)
+        m[tpos] = code
+        out.append(mut_conv("C20-m-ty%03d" % code, m))
+        m2 = list(ex)
+        m2[tpos + 2 * 3] = code
+        out.append(mut_conv("C20-m-ty3-%03d" % code, m2))
+    out.append(mut_conv("C20-m-reuse-unbound", com_execute(1, params, False)))     # reuse with nothing bound
+    out.append(mut_conv("C20-m-ext", ex + [1, 2, 3]))
+    for seq in range(256):                               # request sequence ids
+        out.append(mut_conv("C20-m-seq%03d" % seq, ex, seq0=seq))
+    # long data / close / execute with extreme ids and lengths
+    for body in ([0x18], [0x18, 1, 0, 0], [0x18, 1, 0, 0, 0], [0x18, 1, 0, 0, 0, 0], [0x18, 1, 0, 0, 0, 0, 0], [0x19], [0x19, 1], [0x19, 1, 0, 0], [0x17], [0x17, 1, 0, 0, 0], [0x17, 1, 0, 0, 0, 0, 1, 0, 0]):
+        out.append(mut_conv("C20-m-short-%s" % "_".join(map(str, body)), body))
+    # (4) handshake: every truncation, random garbage, empty packets, zero-length packets
+    full41 = handshake41(b"root")
+    for cut in range(len(full41) + 1):
+        out.append(raw_conv("C20-h41-%03d" % cut, frame(com_ping(), 0), hs=full41[:cut]))
+    full320 = handshake320(b"root")
+    for cut in range(len(full320) + 1):
+        out.append(raw_conv("C20-h320-%03d" % cut, frame(com_ping(), 0), hs=full320[:cut]))
+    for i in range(200 if tier == "quick" else 3000):
+        junk = [rng.getrandbits(8) for _ in range(rng.randint(0, 60))]
+        out.append(raw_conv("C20-hj%04d" % i, frame(com_ping(), 0), hs=junk, hs_seq=rng.getrandbits(8)))
+    # (5) seeded random bytes behind a valid handshake (and random packet headers)
+    for i in range(600 if tier == "quick" else 10000):
+        L = rng.randint(1, 40)
+        junk = [rng.getrandbits(8) for _ in range(L)]
+        if rng.random() < 0.5:
+            junk = hdr(rng.randint(0, L), rng.getrandbits(8)) + junk
+        out.append(raw_conv("C20-j%05d" % i, junk, chunks=rand_chunks(rng)))
+    return out
